@@ -33,7 +33,7 @@ ID = "C12"
 LEAN_MODULES = ["DclabModel.Properties.C12"]
 RULE = ("plus two datasets of 1024 / 2048 events (metamorphic part), 30 histories of 7-14 "
         "operations (filter / configuration / late features / statistics requests) and 12 "
-        "mutate-and-repeat request sequences of 39 requests each on one dataset; "
+        "mutate-and-repeat request sequences of 48 requests each on one dataset; "
         "seeded datasets of 1-64 events with two to three scalar features (positive, "
         "log-normal-like; variants: heavy ties, values <= 0, NaN/inf on included and on excluded "
         "events), filters: empty, single event, random, full; per dataset all entry points x "
